@@ -208,6 +208,24 @@ def worker_copies(graph: Any, scenario: str) -> list[Finding]:
 REGISTERS = ("_picked_by_setup_nodes", "_dropped_setup_nodes", "_picked_by_cleanup_nodes", "_dropped_cleanup_nodes")
 
 
+def flat_expansions(graph: Any, scenario: str) -> list[Finding]:
+    """A lazily expanded (flat) test leads to the tests of the up-front graph: where the expansion reused a test that
+    was split into clones (one per variant of a setup), the flat test leads to the clones and not only to the retired
+    source, which keeps the dependencies of the unsplit test and is never run."""
+    out: list[Finding] = []
+    for flat in graph.nodes:
+        if not flat.is_flat() or flat.is_shared_root():
+            continue
+        children = list(flat.cleanup_nodes)
+        for child in children:
+            if child.is_flat() or len(child.cloned_nodes) == 0:
+                continue
+            missing = [c for c in child.cloned_nodes if c not in children]
+            if missing:
+                out.append((f"C09 {scenario} lazy expansion leads to a retired clone source", f"the lazily expanded {_short(flat.params['name'])} leads to {_short(child.params['name'])}, which was split into {len(child.cloned_nodes)} clones, but not to its clones {[_short(c.params['name']) for c in missing]}: the expanded test keeps the dependencies of the unsplit test instead of those of the complete graph", {}))
+    return out
+
+
 def visits_kept(run: Any) -> list[Finding]:
     """Progress made by one worker is seen by all: a visit once recorded stays in a register some node still uses."""
     out: list[Finding] = []
